@@ -142,6 +142,53 @@ func Bytes7(n int) []byte {
 	return b
 }
 
+type skipper interface {
+	Skip(args ...any)
+	Fatal(args ...any)
+	Logf(format string, args ...any)
+}
+
+type runOut struct {
+	Idx      int      `json:"idx"`
+	Harness  string   `json:"harness"`
+	End      string   `json:"end"`
+	Failures []string `json:"failures"`
+	Reached  []string `json:"reached"`
+	Obs      []string `json:"obs"`
+}
+
+// ReplayAll runs every entry of the JSON list in $ZZV_REPLAY and writes results to $ZZV_OUT.
+func ReplayAll(t skipper, harnesses map[string]func()) {
+	path := os.Getenv("ZZV_REPLAY")
+	if path == "" {
+		t.Skip("no replay file")
+	}
+	data, err := os.ReadFile(path)
+	if err != nil {
+		t.Fatal(err)
+	}
+	var runs []Replay
+	if err := json.Unmarshal(data, &runs); err != nil {
+		t.Fatal(err)
+	}
+	out, err := os.Create(os.Getenv("ZZV_OUT"))
+	if err != nil {
+		t.Fatal(err)
+	}
+	defer out.Close()
+	enc := json.NewEncoder(out)
+	for i, r := range runs {
+		f := harnesses[r.Harness]
+		if f == nil {
+			enc.Encode(runOut{Idx: i, Harness: r.Harness, End: "unknown-harness"})
+			continue
+		}
+		Set(r)
+		end := RunFunc(f)
+		enc.Encode(runOut{Idx: i, Harness: r.Harness, End: end, Failures: Failures, Reached: Reached, Obs: Obs})
+	}
+}
+
 // RunFunc runs a harness natively under a replay vector and reports how it ended.
 func RunFunc(f func()) (end string) {
 	defer func() {
